@@ -420,7 +420,25 @@ def rule_hashable_membership_(ctx: Ctx, rep: Report) -> None:
     rule_hashable_membership(ctx, rep, "C07.hashable_membership", ('btclib.bip32',))
 
 
+def rule_fingerprint_is_a_hash(ctx: Ctx, rep: Report) -> None:
+    """C07.fingerprint_is_a_hash: BIP32's fingerprint of a key is the first four
+    bytes of HASH160 of its (neutered) public key, defined for every valid key.
+    `fingerprint` computes it that way -- it calls `hash160` and does not go
+    through a derivation: read off a derived child instead, it is undefined
+    where a key has no child (depth 255) and an exception there, for a key
+    whose fingerprint BIP32 defines like any other."""
+    rule = "C07.fingerprint_is_a_hash"
+    fi = ctx.func("btclib.bip32.bip32.fingerprint")
+    names = {call_name(c) for c in own_nodes(fi.node) if isinstance(c, ast.Call)}
+    rep.ob(rule, "fingerprint:hash160", "hash160" in names, fi.where(), "HASH160 of the key's octets" if "hash160" in names else f"`fingerprint` does not hash the key (it calls {sorted(names)})")
+    der = sorted(n_ for n_ in names if "derive" in n_.lower() or n_ in ("_ckd", "ckd"))
+    rep.ob(rule, "fingerprint:no_derivation", not der, fi.where(), "no derivation on the way" if not der else f"`fingerprint` goes through {der}: a key that has no child (depth 255) has no fingerprint")
+    rep.floor(rule, 2)
+
+
 RULES = [
+    ("C07.fingerprint_is_a_hash", rule_fingerprint_is_a_hash),
+
     ("C07.hashable_membership", rule_hashable_membership_),
 
     ("C07.path_is_walked_as_stated", rule_path_is_walked_as_stated),
